@@ -673,6 +673,26 @@ func c05Scenario(c *Ctx, idx int, r *Rng) {
 			}
 		}
 	}
+	// ---- the prune remote may be a local repository (file:// URL, served by the built-in standalone
+	// transfer agent, no LFS API to ask): its LFS store then holds exactly what the server holds
+	if len(flags) > 0 && flags[0] == "--verify-remote" && r.Chance(35) {
+		bare := remote
+		if pruneRemote == "upstream" {
+			bare = filepath.Join(base, "upstream.git")
+		}
+		psrv.mu.Lock()
+		for o, b := range psrv.objs {
+			p := filepath.Join(bare, "lfs", "objects", o[0:2], o[2:4], o)
+			os.MkdirAll(filepath.Dir(p), 0o755)
+			os.WriteFile(p, b, 0o644)
+		}
+		psrv.mu.Unlock()
+		w.git("config", "remote."+pruneRemote+".url", "file://"+bare)
+		w.git("config", "--unset", "lfs.url")
+		w.git("config", "--unset", "remote."+pruneRemote+".lfsurl")
+		s.log("prune remote %s is file://", pruneRemote)
+		c.R.Count("family.prune-remote-is-a-local-repository")
+	}
 	// ---- run prune
 	before := w.localObjects()
 	psrv.mu.Lock()
